@@ -216,7 +216,7 @@ def _cc_configs(tier):
 
 
 @harness("canopy_cover", modules=["aquacrop.solution.canopy_cover", "aquacrop.solution.cc_development", "aquacrop.solution.cc_required_time",
-                                  "aquacrop.solution.adjust_CCx", "aquacrop.solution.update_CCx_CDC"], props=["C05", "C12"],
+                                  "aquacrop.solution.adjust_CCx", "aquacrop.solution.update_CCx_CDC"], props=["C05", "C12", "C16"],
          configs=_cc_configs, abstract_nl=True, timeout_ms=10000, goals=["canopy-grows", "canopy-declines"])
 def h_canopy(ctx, cfg):
     crop = season_crop(cfg["crop"])
